@@ -114,6 +114,18 @@ func (h *canonRun) deliver(c *cdef, t tuple, data []byte) (*nom.AccountBlockTran
 }
 
 // the clause, on one accepted block: where = "accepted" (what ApplyBlock returned) or "ledger" (read back)
+// what ApplyBlock hands back is what will be stored: its hash is the hash of its own fields (a re-pack that changed
+// Data under a kept Hash field would show here, before the ledger does)
+func (h *canonRun) checkHash(c *cdef, m abi.Method, kind string, offered []byte, tx *nom.AccountBlockTransaction) {
+	ok := tx.Block.ComputeHash() == tx.Block.Hash
+	d := M{}
+	if !ok {
+		d = M{"regime": h.regime, "contract": c.Name, "method": m.Name, "encoding": kind, "offered_data": Byt(offered),
+			"stored_data": Byt(tx.Block.Data), "hash_field": tx.Block.Hash.String(), "computed_hash": tx.Block.ComputeHash().String()}
+	}
+	h.out.Oracle(ok, "accepted-call-block-hash", d)
+}
+
 func (h *canonRun) checkStored(c *cdef, m abi.Method, key, kind string, offered, stored []byte, t tuple) bool {
 	canon := canonicalOf(c.ABI, m, stored)
 	ok := canon != nil && bytes.Equal(canon, stored)
@@ -243,6 +255,7 @@ func (h *canonRun) method(c *cdef, m abi.Method, perMethod, perTuple int) {
 			// the canonical packing is stored as it is
 			out.Oracle(bytes.Equal(tx.Block.Data, canon), "canonical-call-data-stored-unchanged", M{"contract": c.Name, "method": m.Name, "data": Byt(canon)})
 			h.checkStored(c, m, "accepted-call-data-is-canonical", "canonical", canon, tx.Block.Data, t)
+			h.checkHash(c, m, "canonical", canon, tx)
 			if t.amount.Cmp(zx(100)) <= 0 && c.Addr != types.SporkContract && rng.Intn(6) == 0 {
 				h.confirm(c, m, "canonical", canon, tx, t)
 			}
@@ -280,6 +293,7 @@ func (h *canonRun) method(c *cdef, m abi.Method, perMethod, perTuple int) {
 			}
 			out.Count("noncanon:" + key + ":accepted")
 			h.checkStored(c, m, "accepted-call-data-is-canonical", nc.tag, nc.data, tx.Block.Data, t)
+			h.checkHash(c, m, nc.tag, nc.data, tx)
 			// whatever was accepted goes all the way into the ledger
 			h.confirm(c, m, nc.tag, nc.data, tx, t)
 			abiLevel()
